@@ -94,7 +94,7 @@ class Sym:
             out = out + V(n) * c
         return out
 
-    def _linear(self, raw=False):
+    def _linear(self, raw=False, pi_numeric=False):
         """numerator as a linear form over input symbols ({name: Fraction}, Fraction) or None"""
         if self.d or _is_num(self.n):
             return None
@@ -106,6 +106,9 @@ class Sym:
                 return {}, Fraction(t.as_long())
             if z3.is_const(t) and t.decl().kind() == z3.Z3_OP_UNINTERPRETED:
                 nm = t.decl().name()
+                if pi_numeric and nm == 'pi':
+                    # only to NAME a locus (f*pi/180 == g*pi/180 is f == g): a wrongly named locus is a harmless extra run
+                    return {}, Fraction(355, 113)
                 if '#' in nm or '!' in nm:
                     raise ValueError
                 return {nm: Fraction(1)}, Fraction(0)
@@ -418,11 +421,14 @@ class Sym:
                 return (lf[1] == 0) == (kind == 'eq')
         if kind in ('eq', 'ne'):
             ev = (self.describe(), o.describe())
-            if ev[0] is None or ev[1] is None:
+            kinds = (ev[0][0] if ev[0] else None, ev[1][0] if ev[1] else None)
+            direct = (kinds[0] in ('var', 'num') and kinds[1] in ('var', 'num')) or 'lin' in kinds or (
+                set(kinds) == {'prod', 'num'} and (ev[0] if kinds[0] == 'num' else ev[1])[1] == '0')
+            if not direct:
                 # a quotient / compound expression compared with something: the locus is where the numerator of the difference vanishes;
                 # when that numerator is linear in the inputs (xi = 2*x/a - 1 == -1  <=>  x == 0) it can be imposed like any other
                 try:
-                    lf = Sym((self - o).n)._linear(raw=True)
+                    lf = Sym((self - o).n)._linear(raw=True, pi_numeric=True)
                 except Exception:
                     lf = None
                 if lf is not None and lf[0]:
